@@ -125,10 +125,9 @@ class Ctx(object):
         self.pc.append(cond if d else z3.Not(cond))
         return d
 
-    def explore(self, fn):
-        """list of Path for every feasible path of fn() (fn must be deterministic given the decisions)"""
+    def iter_paths(self, fn):
+        """generator of Path for every feasible path of fn() (fn must be deterministic given the decisions)"""
         work = [[]]
-        out = []
         while work:
             prefix = work.pop()
             self._fresh_run(prefix)
@@ -146,14 +145,17 @@ class Ctx(object):
             self.stats["paths"] += 1
             if self.stats["paths"] > self.max_paths:
                 raise Budget("path budget %d exceeded" % self.max_paths)
-            out.append(Path(list(self.pc), res[0], res[1], list(self.decisions), list(self.notes)))
-            for i in range(len(prefix), len(self.decisions)):
-                r = self.check(*(self.pc[:i] + [z3.Not(self.pc[i])]))
+            pc, decisions = list(self.pc), list(self.decisions)
+            for i in range(len(prefix), len(decisions)):
+                r = self.check(*(pc[:i] + [z3.Not(pc[i])]))
                 if r != "unsat":
                     if r == "unknown":
                         self.stats["unknown_feasibility"] += 1
-                    work.append(self.decisions[:i] + [not self.decisions[i]])
-        return out
+                    work.append(decisions[:i] + [not decisions[i]])
+            yield Path(pc, res[0], res[1], decisions, list(self.notes))
+
+    def explore(self, fn):
+        return list(self.iter_paths(fn))
 
 
 # ---------------------------------------------------------------------------
